@@ -189,3 +189,133 @@ Theorem c20_translated_utf8parse_advance :
   forall p r b, g_u8_parser_advance p r b =
     Some (fst (u8_parser_advance p b), r ++ u8_events (snd (u8_parser_advance p b))).
 Proof. exact g_u8_parser_advance_eq. Qed.
+
+(* ==== the `core` feature's buffer, translated: arrayvec's `ArrayVec<T, CAP>` ======================
+   With `core`, `osc_raw` is an `ArrayVec<u8, MAX_OSC_RAW>` of the third-party crate arrayvec.  The methods
+   anstyle-parse calls on it (Default / new, clear, is_full, len, push, Deref for the indexing) and everything
+   they reach inside the crate (trait ArrayVecImpl's default bodies try_push / push_unchecked / truncate /
+   as_slice, set_len, as_ptr / as_mut_ptr, CapacityError::new, the macro assert_capacity_limit!) are
+   translated from the registry source of the version Cargo.lock pins (Generated/ArrayVecFn.v,
+   tools/gen_fn_arrayvec.py).  It is unsafe code over `[MaybeUninit<T>; CAP]` + `len`, read at value level
+   (Model/ArrayVec.v, trusted: a slot is an option, a pointer into the buffer a slot index, undefined
+   behaviour = None like a panic).  [av_rep cap v l]: the vector v holds the list l -- slots [0, len) are
+   initialised and are l, len <= CAP = length of the buffer, CAP fits LenUint.  On represented vectors the
+   translated methods behave as the list model (the avl_ functions) that the parser's translation uses, preserve the
+   representation, and reach None only where the list model panics (push on a full vector). *)
+From AV Require Import Model.ArrayVec Generated.ArrayVecFn Proofs.ArrayVecGen.
+
+Theorem c20_translated_arrayvec_new :
+  forall (T : Type) cap, g_av_new T cap = option_map (fun _ => av_empty T cap) (@avl_new T cap).
+Proof. exact g_av_new_eq. Qed.
+
+Theorem c20_translated_arrayvec_new_is_empty :
+  forall (T : Type) cap v, g_av_new T cap = Some v -> av_rep cap v [] /\ @avl_new T cap = Some [].
+Proof. exact g_av_new_rep. Qed.
+
+Theorem c20_translated_arrayvec_new_panics_iff_cap_exceeds_u32 :
+  forall (T : Type) cap, g_av_new T cap = None <-> av_len_uint_max < cap.
+Proof. exact g_av_new_panics. Qed.
+
+Theorem c20_translated_arrayvec_default_is_new :
+  forall (T : Type) cap, g_av_default T cap = g_av_new T cap.
+Proof. exact g_av_default_eq. Qed.
+
+Theorem c20_translated_arrayvec_default_max_osc_raw :
+  exists v0, g_av_default N pc_max_osc_raw = Some v0 /\ av_rep pc_max_osc_raw v0 ([] : list N).
+Proof. exact translated_arrayvec_default_max_osc_raw. Qed.
+
+Theorem c20_translated_arrayvec_len :
+  forall (T : Type) cap v l, av_rep cap v l -> g_av_len T v = avl_len l.
+Proof. exact g_av_len_eq. Qed.
+
+Theorem c20_translated_arrayvec_is_full :
+  forall (T : Type) cap v l, av_rep cap v l -> g_av_is_full T cap v = avl_is_full cap l.
+Proof. exact g_av_is_full_eq. Qed.
+
+Theorem c20_translated_arrayvec_is_empty :
+  forall (T : Type) cap v l, av_rep cap v l -> g_av_is_empty T v = avl_is_empty l.
+Proof. exact g_av_is_empty_eq. Qed.
+
+Theorem c20_translated_arrayvec_remaining_capacity :
+  forall (T : Type) cap v l, av_rep cap v l ->
+    g_av_remaining_capacity T cap v = avl_remaining cap l /\ avl_remaining cap l = Some (cap - len l).
+Proof. exact g_av_remaining_capacity_eq. Qed.
+
+(* as_slice / Deref: `slice::from_raw_parts(self.as_ptr(), len)` reads initialised slots only *)
+Theorem c20_translated_arrayvec_as_slice :
+  forall (T : Type) cap v l, av_rep cap v l -> g_av_as_slice T v = Some l.
+Proof. exact g_av_as_slice_eq. Qed.
+
+Theorem c20_translated_arrayvec_deref :
+  forall (T : Type) cap v l, av_rep cap v l -> g_av_deref T v = Some l.
+Proof. exact g_av_deref_eq. Qed.
+
+(* try_push: Ok and the element appended while there is room, else Err(CapacityError { element }) and no change *)
+Theorem c20_translated_arrayvec_try_push :
+  forall (T : Type) cap v l x, av_rep cap v l ->
+    try_push_sim T cap (g_av_try_push T cap v x) (avl_try_push cap l x).
+Proof. exact g_av_try_push_eq. Qed.
+
+(* push = try_push(..).unwrap(): appends, PANICS on a full vector -- and only then *)
+Theorem c20_translated_arrayvec_push :
+  forall (T : Type) cap v l x, av_rep cap v l -> osim T cap (g_av_push T cap v x) (avl_push cap l x).
+Proof. exact g_av_push_eq. Qed.
+
+Theorem c20_translated_arrayvec_push_panics_iff_full :
+  forall (T : Type) cap v l x, av_rep cap v l -> (g_av_push T cap v x = None <-> avl_is_full cap l = true).
+Proof. exact g_av_push_panics_iff_full. Qed.
+
+(* push_unchecked: `ptr::write` to slot len stays inside the buffer exactly when there is room (else the
+   debug assertion fails before the write) *)
+Theorem c20_translated_arrayvec_push_unchecked :
+  forall (T : Type) cap v l x, av_rep cap v l -> osim T cap (g_av_push_unchecked T cap v x) (avl_push cap l x).
+Proof. exact g_av_push_unchecked_eq. Qed.
+
+Theorem c20_translated_arrayvec_set_len :
+  forall (T : Type) cap v n, cap <= av_len_uint_max -> n <= cap -> g_avi_set_len T cap v n = Some (set_av_len v n).
+Proof. exact g_avi_set_len_eq. Qed.
+
+(* truncate / clear / Drop: `drop_in_place` of the slots [new_len, len) -- all initialised -- never fails *)
+Theorem c20_translated_arrayvec_truncate :
+  forall (T : Type) cap v l n, av_rep cap v l ->
+    exists v', g_av_truncate T cap v n = Some v' /\ av_rep cap v' (avl_truncate l n).
+Proof. exact g_av_truncate_eq. Qed.
+
+Theorem c20_translated_arrayvec_clear :
+  forall (T : Type) cap v l, av_rep cap v l ->
+    exists v', g_av_clear T cap v = Some v' /\ av_rep cap v' (avl_clear l).
+Proof. exact g_av_clear_eq. Qed.
+
+Theorem c20_translated_arrayvec_drop :
+  forall (T : Type) cap v l, av_rep cap v l -> exists v', g_av_drop T cap v = Some v' /\ av_rep cap v' [].
+Proof. exact g_av_drop_eq. Qed.
+
+(* any script of push / try_push / clear / truncate, from any represented vector *)
+Theorem c20_translated_arrayvec_run :
+  forall (T : Type) cap os v l, av_rep cap v l -> osim T cap (g_av_run T cap v os) (avl_run cap l os).
+Proof. exact g_av_run_eq. Qed.
+
+(* ENTRY POINT: from `ArrayVec::new()`, any script: same panics as the list model, and then the same answers *)
+Theorem c20_translated_arrayvec_is_model :
+  forall (T : Type) cap os v0,
+    g_av_new T cap = Some v0 ->
+    match g_av_run T cap v0 os, avl_run cap [] os with
+    | Some v, Some l =>
+        g_av_len T v = avl_len l /\ g_av_is_full T cap v = avl_is_full cap l /\ g_av_is_empty T v = avl_is_empty l /\
+        g_av_as_slice T v = Some l /\ g_av_deref T v = Some l /\ len l <= cap
+    | None, None => True
+    | _, _ => False
+    end.
+Proof. exact translated_arrayvec_is_model. Qed.
+
+(* the list operations the parser's translation (Generated/ParserFn.v) writes for `osc_raw` under `core` --
+   raw_full, len, slice, the guarded `++ [b]`, [] -- are what the translated ArrayVec<u8, cap> does *)
+Theorem c20_translated_arrayvec_is_parser_buffer :
+  forall c cap (v : avec N) (raw : list N),
+    osc_cap c = Some cap -> av_rep cap v raw ->
+    g_av_is_full N cap v = raw_full c raw /\
+    g_av_len N v = len raw /\
+    (forall a b, r <- g_av_deref N v ;; slice r a b = slice raw a b) /\
+    (forall b, osim N cap (g_av_push N cap v b) (if cfg_core c && raw_full c raw then None else Some (raw ++ [b]))) /\
+    (exists v', g_av_clear N cap v = Some v' /\ av_rep cap v' []).
+Proof. exact translated_arrayvec_is_parser_buffer. Qed.
